@@ -71,6 +71,7 @@ type PipeRec struct {
 
 	// not judged, not serialised
 	Refused bool   `json:"-"` // Encode / Info / OpenStream refused the chain: nothing was written
+	OK      bool   `json:"-"` // the harness's own comparison found nothing wrong (selects what TLC judges in the quick tier)
 	EncLen  int    `json:"-"`
 	Encoded []byte `json:"-"`
 	out     []byte
